@@ -697,9 +697,9 @@ class ExprMixin:
                     s1.assume(z3.ForAll([i.t], z3.Implies(z3.And(i.t >= 0, i.t < z3.Length(srcv.t)),
                                                           out.t[i.t] == z3.substitute(val.t, (q.t, srcv.t[i.t])))))
                     # the same fact in membership form (sequence theory does not link indices and containment by itself)
-                    y = val.s.fresh("y")
-                    s1.assume(z3.ForAll([y.t], z3.Contains(out.t, z3.Unit(y.t)) ==
-                                        z3.Exists([q.t], z3.And(member(q.t), y.t == val.t))))
+                    # (image direction only: every element's value is contained; the converse needs an existential under the
+                    #  quantifier, which made unrelated obligations time out)
+                    s1.assume(z3.ForAll([q.t], z3.Implies(member(q.t), z3.Contains(out.t, z3.Unit(val.t)))))
                 else:
                     y = val.s.fresh("y")
                     s1.assume(z3.ForAll([y.t], z3.Contains(out.t, z3.Unit(y.t)) ==
